@@ -52,6 +52,7 @@ namespace Givaro {
                 roots.push_back (
                     this->sqrootmodprimepower (tmp, a, *Lf_iter, *Le_iter, *Pe_iter));
             }
+            if (tmp == -1) return x = -1; // not a residue mod this prime power
         }
 
             // Chinese Remaindering
@@ -186,6 +187,7 @@ namespace Givaro {
             if((t&1)==0){
                 Rep sqrtb;
                 sqrootmodprimepower(sqrtb,b,p,k,pk);
+                if (sqrtb == -1) return x = -1;
                 powmod(x,p,(t>>1),pk);
                 x*=sqrtb;
                 return x%=pk;
@@ -266,6 +268,7 @@ namespace Givaro {
             if ((t & 1U)==0) {
                 Rep sqrtpt(1); sqrtpt<<=(t>>1);
                 sqrootmodpoweroftwo(x,b,k,pk);
+                if (x == -1) return x;
                 x <<= (t>>1); // x <-- x * 2^{t/2}
                 return x%=pk;
             } else {
@@ -326,6 +329,7 @@ namespace Givaro {
                                              const Rep & p,
                                              const uint64_t k) const {
         sqrootmodprime(x,a,p);
+        if (x == -1) return x;
         Rep pk(p);
         for(uint64_t i=1;i<k;i++){
             sqrootonemorelift(x,a,p,i,pk);
